@@ -138,7 +138,7 @@ class HashTable:
         return self.dtype(2 * keys.size - 1)  # TODO: make prime
 
     def _get_hash(self, keys):
-        return keys % self._mod
+        return keys % int(self._mod)  # a Python int is a weak operand: the hash keeps the keys' own integer type
 
     def _build_ragged_array(self, keys, hashes):
         unique, counts = np.unique(hashes, return_counts=True)
